@@ -268,6 +268,72 @@ def _sink_kwargs(body):
     return out
 
 
+def _is_literal_seq(e):
+    if not isinstance(e, (ast.Tuple, ast.List)) or not e.elts:
+        return False
+    return all(isinstance(x, ast.Constant) or (
+        isinstance(x, (ast.Tuple, ast.List)) and x.elts and all(
+            isinstance(y, (ast.Constant, ast.Name, ast.Attribute))
+            for y in x.elts)) for x in e.elts)
+
+
+def _propagate_literal_iterables(f, module_tree):
+    """`for x in NAME:` where NAME is bound exactly once (in the function,
+    at class level or at module level) to a literal tuple / list is read as
+    the loop over that literal, so that it can be unrolled like one."""
+    local = {}
+    for a in ast.walk(f):
+        if isinstance(a, ast.Assign) and len(a.targets) == 1 and \
+                isinstance(a.targets[0], ast.Name):
+            local.setdefault(a.targets[0].id, []).append(a.value)
+        elif isinstance(a, (ast.AugAssign, ast.For, ast.comprehension)):
+            t = a.target
+            for x in ast.walk(t):
+                if isinstance(x, ast.Name):
+                    local.setdefault(x.id, []).append(None)
+    outer = {}
+    if module_tree is not None:
+        for n in module_tree.body:
+            if isinstance(n, ast.Assign) and len(n.targets) == 1 and \
+                    isinstance(n.targets[0], ast.Name):
+                outer.setdefault(('', n.targets[0].id), []).append(n.value)
+            elif isinstance(n, ast.ClassDef):
+                for m in n.body:
+                    if isinstance(m, ast.Assign) and len(m.targets) == 1 \
+                            and isinstance(m.targets[0], ast.Name):
+                        outer.setdefault(('cls', m.targets[0].id),
+                                         []).append(m.value)
+
+    def literal_for(e):
+        if isinstance(e, ast.Name):
+            vals = local.get(e.id)
+            if vals is None:
+                vals = outer.get(('', e.id))
+            if vals and len(vals) == 1 and vals[0] is not None and \
+                    _is_literal_seq(vals[0]):
+                return vals[0]
+        if isinstance(e, ast.Attribute) and isinstance(e.value, ast.Name) \
+                and (e.value.id in ('self', 'cls') or
+                     e.value.id[:1].isupper()):
+            vals = outer.get(('cls', e.attr))
+            if vals and len(vals) == 1 and _is_literal_seq(vals[0]):
+                return vals[0]
+        return None
+    for n in ast.walk(f):
+        if isinstance(n, ast.For):
+            lit = literal_for(n.iter)
+            if lit is not None:
+                n.iter = copy.deepcopy(lit)
+            elif isinstance(n.iter, (ast.Tuple, ast.List)):
+                # a literal of pairs whose second members are such names
+                for row in n.iter.elts:
+                    if isinstance(row, (ast.Tuple, ast.List)):
+                        for i, y in enumerate(row.elts):
+                            l2 = literal_for(y)
+                            if l2 is not None and False:
+                                row.elts[i] = copy.deepcopy(l2)
+
+
 def normalize(func, module_tree=None, keep=None):
     """Normalised deep copy of ``func`` (a FunctionDef)."""
     f = copy.deepcopy(func)
@@ -293,8 +359,12 @@ def normalize(func, module_tree=None, keep=None):
         f = inl.visit(f)
         if not inl.count:
             break
-    un = _Unroll(keep)
-    f = un.visit(f)
+    for _ in range(3):
+        _propagate_literal_iterables(f, module_tree)
+        un = _Unroll(keep)
+        f = un.visit(f)
+        if not un.count:
+            break
     f = _Fold().visit(f)
     f.body = _sink_kwargs(f.body)
     ast.fix_missing_locations(f)
